@@ -11,7 +11,7 @@ from .common import Failure, f2h, h2f, parse_reply, vec
 
 ID = "C15"
 BIN = "c15"
-PROOF_MODULES = ["Compute.Props.C15", "Compute.Props.C15Extra"]
+PROOF_MODULES = ["Compute.Props.C15", "Compute.Props.C15Extra", "Compute.Props.C15Review"]
 REQUIRED_THEOREMS = [
     "Cv.C15.applyOp_wf", "Cv.C15.wf_preserved", "Cv.C15.wf_preserved_keep",
     "Cv.C15.reshape_keeps_data", "Cv.C15.reshape_isSome_iff", "Cv.C15.reshape_rejects",
@@ -31,32 +31,59 @@ REQUIRED_THEOREMS = [
     "Cv.C15.sumRows_length", "Cv.C15.sumCols_length", "Cv.C15.sumRows_get", "Cv.C15.sumCols_get", "Cv.C15.sumRows_sum",
     "Cv.C15.sumCols_sum", "Cv.C15.stableSort_eq_insertionSort", "Cv.C15.vecSort_spec", "Cv.C15.vecSort_linearOrder",
     "Cv.C15.vecSort_none_iff", "Cv.C15.vecSort_short", "Cv.C15.applyOpX_wf", "Cv.C15.wf_preserved_X", "Cv.C15.wf_preserved_keep_X",
+    # after the independent review: the square predicates, the Matrix-level comparisons, agreement of the hand models
+    # that C11 / C13 carry of the same Rust functions (Props/C15Review.lean)
+    "Cv.C15.isSquare_iff", "Cv.C15.isSquareLen_iff", "Cv.C15.closeTo_iff", "Cv.C15.matEq_iff",
+    "Cv.C15.closeTo_never_opposite_sign", "Cv.C15.toeplitz_models_agree", "Cv.C15.isSquare_models_agree",
+    "Cv.C15.isUpperTriangular_models_agree", "Cv.C15.rot_three_five_instance",
 ]
-RULE = ("random sessions of 1..40 structural operations (19 state-changing kinds, 12 query kinds) on matrices "
-        "loaded with 1..8 rows/columns (non-square included, occasional zero dimensions), reply = shape + data bits "
-        "after every operation; constructors over sizes 1..64, real start/stop/step, angles in +-4pi; "
+RULE = ("random sessions of 1..40 operations (19 structural state-changing kinds + 6 of the coverage extension, 16 query "
+        "kinds) on matrices loaded with 1..8 rows/columns (non-square included, occasional zero dimensions) and grown up to "
+        "33x40, reply = shape + data bits after every operation; directed strata (block-size boundaries, nearly symmetric "
+        "squares, near-grid arange stops, tolerance boundaries +-1 ulp, opposite-sign pairs over the whole exponent range, "
+        "scalar magnitudes 2^-1074..2^1023 for angles / end points / steps / tolerances); constructors over sizes 1..64; "
         "non-trivial = distinct (operation, result shape / argument size, outcome class)")
 EXHAUSTIVE = {"quick": False, "thorough": False}
 NOT_PROVED = [
-    "IEEE rounding of the grid constructors (linspace/arange end points, vandermonde powers): theorems are over "
-    "fields / monoids; the float results are judged by the oracle against exact rational references",
+    "READING of `never equate values of opposite sign`: proved literally for close_to (Vector and Matrix: "
+    "vecCloseTo_never_opposite_sign, closeTo_never_opposite_sign, any tolerance, any magnitude). It is FALSE read literally "
+    "for the absolute-epsilon PartialEq of Vector / Matrix, whose definition |a - b| <= f64::EPSILON equates 1e-17 and -1e-17 "
+    "(witness `veq [1e-17] [-1e-17]` -> true, also a kernel-checked example over Q in Props/C15Review); what is proved "
+    "for PartialEq is its definition (vecEq_iff, matEq_iff) and that opposite-signed values are equated ONLY when both lie "
+    "within epsilon of zero (vecEq_opposite_sign); the oracle demands the definition",
+    "IEEE rounding of the grid constructors (linspace/arange end points, vandermonde powers) and of sum_rows / sum_cols: "
+    "theorems are over fields / monoids; the float results are judged by the oracle against exact rational references",
     "arange for a non-positive step (descending grids) is tied and checked by the oracle only; arange_spec assumes step > 0",
     "slice-level is_square uses an f32 square root; modelled by Nat.sqrt (valid for len < 2^24), tied by "
     "correspondence on every length 0..4200 in the thorough tier",
     "sin/cos of the rotation constructors are libm values: orthogonality and det = 1 are proved from c^2+s^2=1, "
-    "the float residual is bounded by the oracle (<= 400 eps, observed 0.65 eps)",
-    "refinement of the row-major reference is proved operation by operation (rows_* / *_spec theorems), not as one "
-    "simulation theorem over whole programs; the invariant (wf_preserved) is proved for whole programs",
-    "reads outside data on a matrix that violates data.len() = nrows*ncols (public fields set by hand) are not modelled",
+    "the float residual is bounded by the oracle (<= 400 eps, observed 0.68 eps) and every entry is compared with sin/cos of "
+    "the angle to 4 ulp at every magnitude",
+    "reads outside data on a matrix that violates data.len() = nrows*ncols (public fields set by hand, push / truncate through "
+    "data_mut) are not modelled",
+    "Matrix::with_capacity(r, c) panics for every r*c > 0 (it hands an empty vector to Matrix::new): modelled and proved "
+    "(withCapacity_spec); judged consistent with the invariant, reported to the lead as an API observation",
 ]
 TRUSTED = [
     "element values are never recomputed by structural operations (bit patterns compared), except the affine map "
     "x*k+b used as the closure of apply_along_row/col (two IEEE operations per entry)",
+    "HAND-MODELLED, NOT SOURCE-TIED (Model/Shape.lean, Model/ShapeExtra.lean; tied to the Rust text only at run time by the "
+    "bit-exact stateful correspondence and the list-of-rows oracle): Matrix::new, reshape, reshape_mut, t, t_mut, hcat, vcat, "
+    "hrepeat, vrepeat, apply_along_row, apply_along_col, get_row_as_vector, get_col_as_vector, flat_idx, flat_idx_replace, "
+    "Index / IndexMut ([i], [[i,j]]), Matrix::diag, to_vec, is_square, is_symmetric, is_upper_triangular, is_lower_triangular, "
+    "close_to, PartialEq (Matrix and Vector), Vector::close_to, to_matrix, Vector::reshape, zeros, ones, shape, size, with_shape, "
+    "with_capacity, data_mut, sum_rows, sum_cols, Vector::{new, empty, empty_n, zeros, ones, with_capacity, sort}, "
+    "utils::{design, is_design, is_matrix, is_square, is_symmetric} and approx_eq::rel_diff. The translator-generated source "
+    "tie (Generated/SrcC15Mut.lean) covers only linspace, arange, diag (slice), vandermonde, transpose, row_to_col_major, "
+    "col_to_row_major, diag_matrix, toeplitz, eye and the rotation matrices",
+    "Rust slice::sort_by is a stable comparison sort that compares every element of a slice of length >= 2 at least once "
+    "(so a NaN always reaches partial_cmp(..).unwrap())",
 ]
 ASSUMPTIONS = [
     "matrix sizes < 2^31 (i32 casts in Matrix::new / reshape are then exact)",
     "matrices with a zero dimension are outside the quantifier of the property (1..8 rows/columns): the session "
-    "oracle checks only the element-count invariant there; model and implementation are still compared bit for bit",
+    "oracle checks only the element-count invariant there (exact expectations for the coverage-extension operations); model "
+    "and implementation are still compared bit for bit",
 ]
 
 EPS = 2.0 ** -52
@@ -1663,6 +1690,8 @@ def corpus():
         # round-7 seed C15p: "small angle fast path" (sin x = x, cos x = 1 - x^2/2 for |x| < 1e-2)
         "rot cw x " + f2h(0.009), "rot ccw x " + f2h(0.009), "rot cw z " + f2h(-1e-3), "rot ccw z " + f2h(-1e-3),
         "rot cw y " + f2h(2.0 ** -7), "rot ccw y " + f2h(2.0 ** -7),
+        # adopted reading for the absolute-epsilon PartialEq: opposite signs within EPSILON of zero ARE equal (definition)
+        "veq %s %s" % (h([1e-17]), h([-1e-17])), "veq %s %s" % (h([1.0]), h([-1.0])), "veq %s %s" % (h([2e-16]), h([-2e-16])),
         # seeded change C15d: sign test by `a * b < 0` misses pairs whose product underflows to -0.0
         "vclose %s %s %s" % (h([1e-300]), h([-1e-300]), f2h(0.0)),
         "vclose %s %s %s" % (h([1.0, 1e-170, 2.0]), h([1.0, -1e-170, 2.0]), f2h(1e-6)),
